@@ -311,7 +311,7 @@ func (s *c11) Build(w *World) {
 	}
 	// the three extension codecs on generated values
 	for i := 0; i < 5; i++ {
-		v := int64(t.Draw(1 << 20))
+		v := []int64{0, 1, 2, 1 << 40, math.MaxInt64, int64(t.Draw(1 << 20)), int64(t.Draw(1 << 20))}[t.Draw(7)] // boundary values first
 		if got, err := donotsendfirstblocks.DecodeDoNotSendFirstBlocks(roundTripNode(donotsendfirstblocks.EncodeDoNotSendFirstBlocks(v))); err != nil || got != v {
 			s.viol = &Violation{Property: "C11", Rule: "R3", Signature: "do-not-send-first-blocks-codec", Detail: fmt.Sprintf("encoded %d, decoded %d (%v)", v, got, err)}
 		}
